@@ -18,7 +18,7 @@ use std::sync::{Arc, Mutex};
 use std::time::{Duration, Instant};
 
 pub const LEVEL: &str = "exploration";
-pub const RULE: &str = "case = scenario on a real connected client (Connector::connect over a socket pair and TLS) whose receive thread is the binary's launch_rdp_thread: 1..12 fast-path bitmap PDUs tagged with serial numbers; a packing of PDUs into TLS records (one per record, several per record, one PDU split over 2-3 records) and of records into socket writes (one write per record, all coalesced, 1..n-byte pieces) with seeded pauses (0 / 100 us / 5 ms); an end mode (disconnect-provider ultimatum, TLS close_notify then close, abrupt close, undecodable PDU then close, none) placed before any PDU, between PDUs or inside a PDU; 0..2 concurrent writer threads doing lock + try_write. Oracle: with the server silent and open every PDU already sent arrives on the bitmap channel in serial order within 5 s (a miss is confirmed by a 'poke' PDU: if the missing events then arrive the thread was waiting for further server traffic); after the end event the thread's JoinHandle is finished within 5 s and the shared client is released (a live thread is classified as spinning or blocked by process CPU time); everything sent before the end was forwarded in order. Scenarios run one at a time. Non-trivial = packing other than one-PDU-per-record-per-write, or an end mode other than none; distinct by hash of the scenario.";
+pub const RULE: &str = "case = scenario on a real connected client (Connector::connect over a socket pair and TLS) whose receive thread is the binary's launch_rdp_thread: 1..12 fast-path bitmap PDUs tagged with serial numbers; a packing of PDUs into TLS records (one per record, several per record, one PDU split over 2-3 records) and of records into socket writes (one write per record, all coalesced, 1..n-byte pieces) with seeded pauses (0 / 100 us / 5 ms); an end mode (disconnect-provider ultimatum, TLS close_notify then close, abrupt close, undecodable PDU then close, none) placed before any PDU, between PDUs or inside a PDU; 0..2 concurrent writer threads doing lock + try_write. Oracle: with the server silent and open every PDU already sent arrives on the bitmap channel in serial order within 5 s (a miss is confirmed by a 'poke' PDU: if the missing events then arrive the thread was waiting for further server traffic); after the end event the thread's JoinHandle is finished within 5 s and the shared client is released (a live thread is classified as spinning or blocked by process CPU time); everything sent before the end was forwarded in order. The matrix section covers every end mode at every protocol point and every packing (one / several / split PDUs per record) on a plain-TLS and on a CredSSP (PROTOCOL_HYBRID) session, plus scenarios that start with 6 s (thorough: 2, 6, 11, 31, 61 s) of complete server silence; one generated scenario in three runs on a CredSSP session. Scenarios run one at a time. Non-trivial = packing other than one-PDU-per-record-per-write, or an end mode other than none; distinct by hash of the scenario.";
 
 const T_DELIVER: Duration = Duration::from_secs(5);
 const T_STOP: Duration = Duration::from_secs(5);
@@ -65,6 +65,12 @@ pub struct Case {
     pub writers: u8,
     /// delay before the end event (pause index)
     pub end_delay: u8,
+    /// the session negotiated CredSSP (PROTOCOL_HYBRID) instead of plain TLS
+    #[serde(default)]
+    pub nla: bool,
+    /// seconds of complete server silence before the PDUs are sent (the receive thread sits in its wait call meanwhile)
+    #[serde(default)]
+    pub silence_s: u8,
 }
 
 /// server-side transport below OpenSSL: lets the scenario decide how ciphertext is cut into socket writes
@@ -116,13 +122,14 @@ struct Session {
     handle: Option<std::thread::JoinHandle<()>>,
 }
 
-fn setup() -> Result<Session, String> {
+fn setup(nla: bool) -> Result<Session, String> {
     let (a, b) = UnixStream::pair().map_err(|e| e.to_string())?;
     a.set_read_timeout(Some(Duration::from_secs(20))).ok();
     b.set_read_timeout(Some(Duration::from_secs(20))).ok();
     let fd = a.as_raw_fd();
     // the client connects (and runs the activation) on a helper thread while this thread plays the server
-    let cfg = ClientCfg { nla: false, ..ClientCfg::simple() };
+    let cfg = ClientCfg { nla, ..ClientCfg::simple() };
+    let server_cfg = cfg.clone();
     let helper = std::thread::spawn(move || -> Result<RdpClient<UnixStream>, String> {
         let mut c = tls::connector_of(&cfg);
         let mut client = c.connect(a).map_err(|e| format!("connect: {:?}", e))?;
@@ -136,10 +143,15 @@ fn setup() -> Result<Session, String> {
     sock.read_exact(&mut hdr).map_err(|e| format!("server: reading the connection request: {}", e))?;
     let mut body = vec![0u8; (((hdr[2] as usize) << 8) | hdr[3] as usize).saturating_sub(4)];
     sock.read_exact(&mut body).map_err(|e| e.to_string())?;
-    sock.write_all(&wire::connection_confirm(&NegReply::Response { flags: 0, selected: 1 }).bytes).map_err(|e| e.to_string())?;
+    sock.write_all(&wire::connection_confirm(&NegReply::Response { flags: 0, selected: if nla { 2 } else { 1 } }).bytes).map_err(|e| e.to_string())?;
     let pipe = Pipe { sock, hold: false, buf: Vec::new() };
     let mut tls = tls::pki().ids[1].acceptor.accept(pipe).map_err(|e| format!("TLS accept: {}", e))?;
-    let mut server = Server::new(ServerProfile::simple(1004, 0x000103EA));
+    if nla {
+        tls::credssp_honest(&mut tls, 1, &server_cfg)?;
+    }
+    let mut profile = ServerProfile::simple(1004, 0x000103EA);
+    profile.selected_protocol = if nla { 2 } else { 1 };
+    let mut server = Server::new(profile);
     let mut buf = vec![0u8; 8192];
     while server.phase != Phase::Active {
         let n = tls.read(&mut buf).map_err(|e| format!("server read during setup: {}", e))?;
@@ -262,7 +274,13 @@ pub fn run(c: &Case) -> Outcome {
         EndMode::AbruptClose => "end:abrupt-close",
         EndMode::UndecodableThenClose => "end:undecodable",
     });
-    let mut s = match setup() {
+    if c.nla {
+        out.label("session:nla");
+    }
+    if c.silence_s > 0 {
+        out.label("long-silence");
+    }
+    let mut s = match setup(c.nla) {
         Ok(s) => s,
         Err(e) => {
             out.fail("inconclusive:setup", format!("session setup failed: {}", e));
@@ -296,6 +314,10 @@ pub fn run(c: &Case) -> Outcome {
     let records = pack(&pdus, c.records);
     let mut got: Vec<u16> = Vec::new();
     let mut io_err = None;
+    if c.silence_s > 0 {
+        // the server says nothing at all for a while: a wait call with a timeout must survive its expiry
+        std::thread::sleep(Duration::from_millis(c.silence_s as u64 * 1000 + 300));
+    }
     if let Err(e) = send(&mut s, &records, c.socket, c.pause) {
         io_err = Some(e.to_string());
     }
@@ -456,6 +478,9 @@ pub fn run(c: &Case) -> Outcome {
 }
 
 pub fn decode(s: &mut Src) -> Case {
+    // decided from the first bytes: late choices are starved by short choice strings
+    let nla = s.chance(80);
+    let silence_s = if s.chance(6) { 1 + s.below(2) as u8 } else { 0 };
     let records = match s.below(4) {
         0 => RecordPacking::OnePerRecord,
         1 => RecordPacking::SplitAcrossRecords(2 + s.below(2) as u8),
@@ -469,21 +494,33 @@ pub fn decode(s: &mut Src) -> Case {
     };
     let end = s.pick(&[EndMode::None, EndMode::DisconnectUltimatum, EndMode::CloseNotify, EndMode::AbruptClose, EndMode::UndecodableThenClose, EndMode::DisconnectUltimatum]);
     let pdus = 1 + s.below(12) as u8;
-    Case { pdus, records, socket, pause: s.below(3) as u8, end, end_after: s.below(pdus as usize + 1) as u8, end_inside: s.chance(64), writers: s.below(3) as u8, end_delay: s.below(3) as u8 }
+    Case { pdus, records, socket, pause: s.below(3) as u8, end, end_after: s.below(pdus as usize + 1) as u8, end_inside: s.chance(64), writers: s.below(3) as u8, end_delay: s.below(3) as u8, nla, silence_s }
 }
 
-fn matrix() -> Vec<Case> {
+fn matrix(thorough: bool) -> Vec<Case> {
     // each end mode at each protocol point, each packing once
     let mut v = Vec::new();
     for end in [EndMode::DisconnectUltimatum, EndMode::CloseNotify, EndMode::AbruptClose, EndMode::UndecodableThenClose] {
         for (end_after, inside) in [(0u8, false), (2, false), (2, true), (4, false)] {
-            v.push(Case { pdus: 4, records: RecordPacking::OnePerRecord, socket: SocketPacking::PerRecord, pause: 0, end, end_after, end_inside: inside, writers: 0, end_delay: 0 });
+            v.push(Case { pdus: 4, records: RecordPacking::OnePerRecord, socket: SocketPacking::PerRecord, pause: 0, end, end_after, end_inside: inside, writers: 0, end_delay: 0, nla: false, silence_s: 0 });
         }
     }
     for records in [RecordPacking::OnePerRecord, RecordPacking::SplitAcrossRecords(2), RecordPacking::SplitAcrossRecords(3)] {
         for socket in [SocketPacking::PerRecord, SocketPacking::Coalesced, SocketPacking::Pieces(1), SocketPacking::Pieces(29)] {
-            v.push(Case { pdus: 5, records, socket, pause: 0, end: EndMode::None, end_after: 0, end_inside: false, writers: 1, end_delay: 0 });
+            v.push(Case { pdus: 5, records, socket, pause: 0, end: EndMode::None, end_after: 0, end_inside: false, writers: 1, end_delay: 0, nla: false, silence_s: 0 });
         }
+    }
+    // several PDUs per TLS record, on a plain-TLS and on a CredSSP session
+    for nla in [false, true] {
+        for records in [RecordPacking::ManyPerRecord(2), RecordPacking::ManyPerRecord(3), RecordPacking::ManyPerRecord(5), RecordPacking::OnePerRecord, RecordPacking::SplitAcrossRecords(2)] {
+            v.push(Case { pdus: 6, records, socket: SocketPacking::PerRecord, pause: 0, end: if nla { EndMode::DisconnectUltimatum } else { EndMode::None }, end_after: 6, end_inside: false, writers: 0, end_delay: 0, nla, silence_s: 0 });
+        }
+    }
+    // long server silence first (longer than common wait timeouts), then traffic and an end event
+    let silences: &[u8] = if thorough { &[2, 6, 11, 31, 61] } else { &[6] };
+    for &silence_s in silences {
+        v.push(Case { pdus: 3, records: RecordPacking::OnePerRecord, socket: SocketPacking::PerRecord, pause: 0, end: EndMode::DisconnectUltimatum, end_after: 3, end_inside: false, writers: 0, end_delay: 0, nla: false, silence_s });
+        v.push(Case { pdus: 2, records: RecordPacking::ManyPerRecord(2), socket: SocketPacking::PerRecord, pause: 0, end: EndMode::AbruptClose, end_after: 0, end_inside: false, writers: 1, end_delay: 0, nla: false, silence_s });
     }
     v
 }
@@ -493,8 +530,9 @@ pub fn check(rep: &Report) {
     rep.assume("liveness is approximated by deadlines (5 s, normal latency < 20 ms); client-side interleavings are perturbed by injected delays and concurrent writers, not controlled");
     rep.assume("scenarios run one at a time so that CPU accounting and deadlines are not disturbed by the check itself");
     rep.assume("socket pair transport (select works on its descriptor exactly as on TCP); RST is not modelled");
-    rep.list("matrix", matrix(), run);
+    rep.list("matrix", matrix(rep.tier == engine::Tier::Thorough), run);
     rep.random("scenarios", rep.tier.n(150, 5_000), 24, decode, run);
     rep.require("scenarios", "end:close-notify", 5);
     rep.require("scenarios", "records:split-pdu", 5);
+    rep.require("scenarios", "session:nla", 10);
 }
